@@ -33,6 +33,15 @@ def frame_obligations(rep):
             continue
         common.structural(rep, 'C20/%s/no write to state shared between calls' % q, q, not bad,
                           {'writes': [w.as_dict() for w in bad]})
+    # (i') no reachable function memoises its results: a cache (functools.lru_cache / cache / cached_property, or any
+    #      decorator whose name says it caches) is state shared between calls - objects handed out once are handed out again
+    for q in sorted(reach):
+        node = fns[q]
+        decos = [ast.unparse(d) for d in getattr(node, 'decorator_list', [])]
+        caching = [d for d in decos if any(k in d.lower() for k in ('lru_cache', 'functools.cache', 'cached_property', 'memo'))
+                   or d.split('(')[0].split('.')[-1] == 'cache']
+        if decos:
+            common.structural(rep, 'C20/%s/is not memoised (no caching decorator)' % q, q, not caching, {'decorators': decos})
     # (ii) the read path of the shared lexer never stores to self
     for q in READ_PATH:
         node = fns.get(q)
